@@ -87,22 +87,33 @@ Proof.
   destruct (rc _ s); reflexivity.
 Qed.
 
+Ltac direct_pointwise_opt H1 H2 L12 Lo :=
+  let k := fresh "k" in let u := fresh "u" in let v := fresh "v" in let w := fresh "w" in
+  let E1 := fresh "E1" in let E2 := fresh "E2" in let E3 := fresh "E3" in
+  rewrite ?H1, ?H2;
+  apply nth_error_ext; intro k; unfold vlin;
+  repeat (rewrite nth_error_vmap2 || rewrite nth_error_map);
+  match type of L12 with length ?x = length ?y =>
+  match type of Lo with length ?z = _ =>
+    destruct (nth3 x y z k L12 Lo) as [(u & v & w & E1 & E2 & E3) | (E1 & E2 & E3)]
+  end end;
+  rewrite ?E1, ?E2, ?E3; opt_ops; try reflexivity; do 2 f_equal.
+
 Lemma direct_opt (fuel : nat) (bi : blasinfo) (a b : T) (i1 i2 io : nat) (s : store (option T)) (x1 x2 : list T) :
-  s i1 = map Some x1 -> s i2 = map Some x2 -> length x1 = length x2 ->
+  s i1 = map Some x1 -> s i2 = map Some x2 -> length x1 = length x2 -> length (s io) = length x1 ->
   post_opt a x1 b x2 io s
     (lincomb_fuel (S fuel) (fun u => u) Direct bi
        {| e_a := Some a; e_b := Some b; e_x1 := i1; e_x2 := i2; e_out := io |} s).
 Proof.
-  intros H1 H2 L12.
-  assert (L : length (s i1) = length (s i2)) by (rewrite H1, H2, !map_length; exact L12).
-  pose proof (direct_exact (fun u : option T => u) fuel bi (Some a) (Some b) i1 i2 io s L) as P.
-  unfold post, post_opt in *.
-  destruct (lincomb_fuel _ _ Direct bi _ s) as [s' | | |]; try contradiction.
-  destruct P as [Po Pf]. split; [|exact Pf].
-  rewrite Po, map_id, H1, H2.
-  apply nth_error_ext; intro k. unfold vlin.
-  repeat (rewrite nth_error_vmap2 || rewrite nth_error_map).
-  destruct (nth_error x1 k), (nth_error x2 k); reflexivity.
+  intros H1 H2 L12 Lo. unfold post_opt.
+  cbn [lincomb_fuel]. unfold direct_body.
+  cbn [deval cval sval opnd e_a e_b e_x1 e_x2 e_out]. opt_ops.
+  repeat split_if.
+  all: cbn [veval vbin opnd sval e_a e_b e_x1 e_x2 e_out]; unfold assign_all.
+  all: norm_hyps.
+  all: split; [ rewrite upd_same, ?map_id; direct_pointwise_opt H1 H2 L12 Lo; subst_scalars; rewrite ?nf_of0;
+                try ring; try zero_is_one
+              | intros j Hj; rewrite upd_other by assumption; reflexivity ].
 Qed.
 
 Theorem lincomb_fuel_poison (r : regime) (bi : blasinfo) (a b : T) (i1 i2 io : nat) (s : store (option T)) (x1 x2 : list T) :
@@ -190,17 +201,43 @@ Proof.
     + intros j Hj. rewrite upd_other by assumption. reflexivity.
 Qed.
 
-(* below THRESHOLD_SMALL entries (or for a non-floating dtype) 0*y + 0*y is evaluated:
-   garbage survives *)
+(* below THRESHOLD_SMALL entries (or for a non-floating dtype) the direct body runs.  If it is the
+   single unguarded assignment, 0*y + 0*y is evaluated and garbage survives ... *)
 Lemma set_zero_direct_poison (bi : blasinfo) (i : nat) (s : store (option T)) :
+  is_guarded direct_body = false ->
   s i = [None] ->
   exists s', lincomb_fuel 2 (fun u => u) Direct bi
                {| e_a := of_Z 0; e_b := of_Z 0; e_x1 := i; e_x2 := i; e_out := i |} s = Ok s'
           /\ s' i = [None].
 Proof.
-  intros Hs. cbn [lincomb_fuel]. unfold direct_expr.
-  cbn [veval vbin opnd sval e_a e_b e_x1 e_x2 e_out]. unfold assign_all.
-  eexists. split; [reflexivity|]. rewrite upd_same, Hs. reflexivity.
+  intros Hg Hs. vm_compute in Hg.
+  first
+  [ discriminate Hg
+  | cbn [lincomb_fuel]; unfold direct_body;
+    cbn [deval veval vbin opnd sval e_a e_b e_x1 e_x2 e_out]; unfold assign_all;
+    eexists; split; [reflexivity|]; rewrite upd_same, Hs; reflexivity ].
+Qed.
+
+(* ... if it tests its scalars (the proposed repair), set_zero() writes zeros whatever y held *)
+Lemma set_zero_direct_guarded (bi : blasinfo) (i : nat) (s : store (option T)) :
+  is_guarded direct_body = true ->
+  exists s', lincomb_fuel 2 (fun u => u) Direct bi
+               {| e_a := of_Z 0; e_b := of_Z 0; e_x1 := i; e_x2 := i; e_out := i |} s = Ok s'
+          /\ s' i = map (fun _ => Some nzero) (s i)
+          /\ forall j, j <> i -> s' j = s j.
+Proof.
+  intros Hg. vm_compute in Hg.
+  pose proof (@nf_of0 T N F) as HF0.        (* keep the dependency on the field laws in both variants *)
+  first
+  [ discriminate Hg
+  | assert (E0 : neqb (@of_Z T _ 0) (of_Z 0) = true) by apply neqb_refl;
+    cbn [lincomb_fuel]; unfold direct_body;
+    cbn [deval cval sval opnd e_a e_b e_x1 e_x2 e_out]; opt_ops;
+    rewrite ?E0; cbn [andb orb negb];
+    cbn [veval vbin opnd sval e_a e_b e_x1 e_x2 e_out]; unfold assign_all;
+    eexists; split; [reflexivity|]; split;
+    [ rewrite upd_same; opt_ops; rewrite ?nf_of0; reflexivity
+    | intros j Hj; rewrite upd_other by assumption; reflexivity ] ].
 Qed.
 
 Lemma lincomb_poison_ok (r : regime) (bi : blasinfo) (a b : T) (i1 i2 io : nat) (s : store (option T)) (x1 x2 : list T) :
@@ -218,13 +255,14 @@ Proof.
 Qed.
 
 Lemma set_zero_direct_counterexample (bi : blasinfo) :
+  is_guarded direct_body = false ->
   exists (i : nat) (s : store (option T)) (s' : store (option T)),
     lincomb_fuel 2 (fun u => u) Direct bi
       {| e_a := of_Z 0; e_b := of_Z 0; e_x1 := i; e_x2 := i; e_out := i |} s = Ok s'
     /\ s' i <> map (fun _ => Some nzero) (s i).
 Proof.
-  exists 0%nat, (fun _ => [None]).
-  destruct (set_zero_direct_poison bi 0%nat (fun _ => [None]) eq_refl) as (s' & E & Hs).
+  intros Hg. exists 0%nat, (fun _ => [None]).
+  destruct (set_zero_direct_poison bi 0%nat (fun _ => [None]) Hg eq_refl) as (s' & E & Hs).
   exists s'. split; [exact E | rewrite Hs; cbn; discriminate].
 Qed.
 
